@@ -42,6 +42,16 @@ def import_job(interp, c, case):
                     [(r["kind"], r["var"], r["formula"]) for r in spec["rules"]],
                     [(r["id"], r["formula"], r["locals"]) for r in spec["reactions"]])
             return ok
+        Tm = interp.load("bioscrape.types")
+
+        def containers():
+            out = {}
+            for mod in (Tm, U):
+                for nm, val in list(mod.ns.items()):
+                    if isinstance(val, (dict, list, set)) and not nm.startswith("__"):
+                        out[(mod.name if hasattr(mod, "name") else id(mod), nm)] = len(val)
+            return out
+        before = containers()
         try:
             M = U.ns["import_sbml"](path, sbml_warnings=False)
         except Exception as e:
@@ -57,6 +67,16 @@ def import_job(interp, c, case):
             os.rmdir(d)
         except OSError:
             pass
+    after = containers()
+    grown = sorted(k_[1] for k_ in after if after[k_] != before.get(k_, 0))
+    if grown:
+        # state kept between imports is not a violation by itself (a correctly keyed cache would be fine): it is a suspicion that the replay
+        # decides on the real build, by reading many documents in one process and checking each against its own text
+        ok = c.prove(False, "%s: module-level containers %s change while a document is read: does a later import depend on an earlier one?" % (tag, grown),
+                     info={"sig": "module-level state kept between imports", "what": "%s: containers %s" % (tag, grown), "suspicion": True})
+        c.failures[-1]["replay"] = dict(rp, aspect="module-level state kept between imports", values={})
+    else:
+        c.prove(True, "reading a document leaves module-level containers of the library unchanged")
     # ---- concrete part: initial values, parameter dictionary, rule list
     init = C13gen.initial_values(spec)
     got_init = M.get_species_dictionary()
